@@ -6,6 +6,7 @@ package harness
 // the retransmissions with a model driven by that truth.
 
 import (
+	"sync/atomic"
 	"fmt"
 	"strings"
 	"sync"
@@ -101,12 +102,23 @@ func isWireStanza(e peer.Event) bool {
 	return e.Kind == "elem" && (e.Name.Local == "message" || e.Name.Local == "presence" || e.Name.Local == "iq")
 }
 
+var c10Serial atomic.Int64
+
 func runC10(c c10Case) vh.Result {
 	var res vh.Result
 	wire := &c10Wire{notify: make(chan struct{}, 1)}
 	toPeer := make(chan string, 64)
 	ready := make(chan *peer.Outcome, 1)
-	script := &peer.Script{Mechs: []string{"PLAIN"}, OfferSM: true, SMId: "sm-c10"}
+	// Every case has its own stream-management id: the library reports (verif hook) when it has finished processing an
+	// <a/> of that session, which is the only trace an <a/> leaves that changes nothing.
+	smID := fmt.Sprintf("sm-c10-%d", c10Serial.Add(1))
+	var acksDone, acksSent atomic.Int64
+	xmpp.VerifSetPoint(func(point, id string) {
+		if point == "route.smanswer.done" && id == smID {
+			acksDone.Add(1)
+		}
+	})
+	script := &peer.Script{Mechs: []string{"PLAIN"}, OfferSM: true, SMId: smID}
 	srv, err := peer.Listen(func(pc *peer.Conn) {
 		out := pc.Negotiate(script, 10*time.Second)
 		ready <- out
@@ -338,6 +350,12 @@ func runC10(c c10Case) vh.Result {
 			}
 			queue = nil
 			toPeer <- fmt.Sprintf("<a xmlns='urn:xmpp:sm:3' h='%d'/>", h)
+			acksSent.Add(1)
+			// the client has processed it (and written whatever it retransmits) before the model moves on
+			if !waitFor(vh.Margin(4*time.Second), func() bool { return acksDone.Load() >= acksSent.Load() }) {
+				res.Fail("t/ack-not-processed", "step %d: <a h=%d/> was not processed within the margin; %s", step, h, desc())
+				break
+			}
 			firm := 0 // pending stanzas other than the initial presence
 			for _, p := range pending {
 				if notInitial(p.payload) {
